@@ -9,11 +9,12 @@ from .tlsref import Suite
 
 
 class Rec:
-    __slots__ = ("d", "kind", "raw", "plain", "idx", "note")
+    __slots__ = ("d", "kind", "raw", "plain", "idx", "note", "prot")
 
     def __init__(self, d, kind, raw, plain=None, note=""):
         self.d, self.kind, self.raw, self.plain, self.note = d, kind, raw, plain, note
         self.idx = -1
+        self.prot = None   # for protected records: dict(ep, seq, inner, fin13)
 
     def __repr__(self):
         return f"Rec({self.d},{self.kind},{len(self.raw)}B{',app=%d' % len(self.plain) if self.plain is not None else ''})"
@@ -29,6 +30,16 @@ def filler(tag: bytes, n: int) -> bytes:
         return b""
     body = (tag + b"|") * (n // (len(tag) + 1) + 1)
     return body[:n]
+
+
+def has_finished(data: bytes) -> bool:
+    """does this sequence of whole handshake messages contain a Finished (type 20)?"""
+    i = 0
+    while i + 4 <= len(data):
+        if data[i] == 20:
+            return True
+        i += 4 + int.from_bytes(data[i + 1:i + 4], "big")
+    return False
 
 
 class TlsConn:
@@ -93,9 +104,14 @@ class TlsConn:
 
     def _enc(self, d, ctype, data, kind, plain=None, pad13=0):
         st = self.cur[d]
+        seq = st.seq
+        ep = None if self.ver != R.TLS13 else ("hs" if st is self.hs[d] else "app")
         octype, body = st.protect(ctype, data, rec_ver=self.rec_ver, pad13=pad13,
                                   extra_pad_blocks=self.shape.get("extra_pad_blocks", 0) if ctype == 23 else 0)
-        return self._add(d, kind, R.record(octype, self.rec_ver, body), plain)
+        r = self._add(d, kind, R.record(octype, self.rec_ver, body), plain)
+        inner = data + bytes([ctype]) + b"\x00" * pad13 if self.ver == R.TLS13 else data
+        r.prot = dict(ep=ep, seq=seq, inner=inner, fin13=bool(self.ver == R.TLS13 and ctype == 22 and has_finished(data)))
+        return r
 
     # ---------------------------------------------------------------- handshake scripts
     def _exts(self, who):
@@ -144,7 +160,8 @@ class TlsConn:
             self.cur["c"] = self.ap["c"]
             return
         cert = sh.get("cert_pattern")
-        certbody = (cert * (300 // len(cert) + 1))[:300] if cert else g(300)
+        cl = sh.get("cert_len", 300)
+        certbody = (cert * (cl // len(cert) + 1))[:cl] if cert else g(cl)
         certm = R.hs_msg(11, (len(certbody) + 3).to_bytes(3, "big") + len(certbody).to_bytes(3, "big") + certbody)
         fin_len = 36 if ver == R.SSL30 else 12
         if sh.get("abbreviated"):
